@@ -223,7 +223,27 @@ struct Format : Profile {
             }
             // raw locations
             std::vector<spec::Extent> ext;
-            if (code != spec::SP_CHUNKED && code != spec::SP_EXT && rd.extents(x, ext, why)) {
+            if (code == spec::SP_EXT) {
+                // the data of an external element is in no block of this file
+                uint16 bt = x.base(), rf = x.ref;
+                datainfo_check(ctx, "HDgetdatainfo", strf("external %d/%d", bt, rf), ext, [&](unsigned st, unsigned cnt, int32 *o, int32 *l) { return HDgetdatainfo(fid, bt, rf, NULL, st, cnt, o, l); });
+            }
+            else if (code == spec::SP_CHUNKED) {
+                spec::Chunked c;
+                uint16        bt = x.base(), rf = x.ref;
+                if (rd.parse_chunked(x, c, why))
+                    for (auto &rec : c.recs) {
+                        const spec::DD           *cd = rd.find(rec.tag, rec.ref);
+                        std::vector<spec::Extent> ce;
+                        if (!cd || !rd.extents(*cd, ce, why))
+                            continue;
+                        std::vector<int32> co(rec.origin.begin(), rec.origin.end());
+                        datainfo_check(ctx, "HDgetdatainfo", strf("chunk of %d/%d", bt, rf), ce,
+                                       [&](unsigned st, unsigned cnt, int32 *o, int32 *l) { return HDgetdatainfo(fid, bt, rf, co.data(), st, cnt, o, l); });
+                        ctx.probe("datainfo-chunk");
+                    }
+            }
+            else if (rd.extents(x, ext, why)) {
                 uint16 bt = x.base(), rf = x.ref;
                 datainfo_check(ctx, "HDgetdatainfo", strf("%d/%d", bt, rf), ext,
                                [&](unsigned st, unsigned cnt, int32 *o, int32 *l) { return HDgetdatainfo(fid, bt, rf, NULL, st, cnt, o, l); });
